@@ -16,6 +16,11 @@ HexInv == \A st \in HexStyles : LET r == AHxDecode(AHxEncode(data, st)) IN r.ok 
 RLInv == \A seg \in {1, 2, 3, 128}, eod \in BOOLEAN : LET r == RLDecode(RLEncode(data, seg, eod)) IN r.ok /\ r.data = data
 TiffInv == \A colors \in {1, 2}, rowlen \in {1, 2, 3, 4} :
               (rowlen % colors = 0) => LET r == TiffDecode(TiffEncode(data, colors, rowlen), colors, rowlen) IN r.ok /\ r.data = data
+\* every component width; also against the 8-bit pair above
+TiffBInv == \A colors \in {1, 2, 3}, bpc \in {1, 2, 4, 8, 16}, columns \in {1, 2, 3} :
+                LET e == TiffEncodeB(data, colors, bpc, columns) r == TiffDecodeB(e, colors, bpc, columns)
+                IN r.ok /\ r.data = data /\ Len(e) = Len(data)
+                   /\ (bpc = 8 => e = TiffEncode(data, colors, colors * columns))
 \* witnesses: the encoders really use both forms
 RunUsed == ~(\E seg \in {2, 3} : \E i \in 1..Len(RLEncode(data, seg, TRUE)) : RLEncode(data, seg, TRUE)[i] > 128)
 =============================================================================
